@@ -479,7 +479,20 @@ Epoch._check_runinfo = _runinfo_check
 
 def _child_epoch(model, base, work, opts, steps, carry):
     """Runs inside the forked child: execute steps until a Restart; returns (n_done, mismatches, samples)."""
-    ep = Epoch(model, Path(base), Path(work), opts)
+    # the environment of this interpreter epoch: the same data directory reached by its absolute path, by a path relative
+    # to the working directory, or through a symbolic link (results never depend on how the directory is spelled)
+    env = ('abs', 'rel', 'link')[(opts.get('env0', 0) + len(steps)) % 3] if opts.get('envs', True) else 'abs'
+    base, work = Path(base), Path(work)
+    if env == 'rel':
+        os.chdir(base.parent)
+        base, work = Path(base.name), Path(work.name)
+    elif env == 'link':
+        link = base.parent / 'data_link'
+        if not link.exists():
+            base.mkdir(exist_ok=True)
+            link.symlink_to(base, target_is_directory=True)
+        base = link
+    ep = Epoch(model, base, work, opts)
     done = 0
     other = None
     if opts.get('record'):
